@@ -344,3 +344,61 @@ def canon(findings, locmap=None, rho=None):
 
 def strip_line_numbers(c):
     return [(a, b, i, re.sub(r"\b(line|lines|Line) \d+", r"\1 N", m or ""), l, s) for (a, b, i, m, l, s) in c]
+
+
+# ------------------------------------------------------------------ layout-sensitive-by-accident candidates
+# multi-line functions whose findings come from comparing two pieces of code with each other: token-identical
+# multi-statement branches, duplicated conditions / expressions on separate lines, repeated statements.
+CANDIDATES = [
+    "int f{n}(int c, int n)\n{{\n    int r;\n    if (c) {{\n        int t = n + {c};\n        r = g(t);\n    }} else {{\n        int t = n + {c};\n        r = g(t);\n    }}\n    return r;\n}}",
+    "int f{n}(int c, int n)\n{{\n    int r = 0;\n    if (c > {c}) {{\n        r = g(n);\n        r += n;\n        r = g(r);\n    }} else {{\n        r = g(n);\n        r += n;\n        r = g(r);\n    }}\n    return r;\n}}",
+    "int f{n}(int a)\n{{\n    if (a == {c}) {{\n        return g(a);\n    }} else if (a == {c}) {{\n        return g(a + 1);\n    }}\n    return 0;\n}}",
+    "int f{n}(int a, int b)\n{{\n    if (a > {c} &&\n        a > {c})\n        return g(b);\n    return (a + b) -\n           (a + b);\n}}",
+    "int f{n}(int a)\n{{\n    int r = 0;\n    r = a;\n    r = a;\n    return r + g(a);\n}}",
+    "int f{n}(int a, int b)\n{{\n    int i = a * b;\n    int j = a * b;\n    return g(i) + g(j);\n}}",
+    "int f{n}(int a)\n{{\n    if (a < {c}) {{\n        if (a >= {c}) {{\n            return g(a);\n        }}\n    }}\n    return 0;\n}}",
+    "int f{n}(int x)\n{{\n    if (x == {c}) {{\n        g(x);\n        if (x == {c}) {{\n            return 1;\n        }}\n    }}\n    return 0;\n}}",
+    "int f{n}(int x)\n{{\n    if (x > {c})\n        return 1;\n    if (x > {c})\n        return 2;\n    return g(x);\n}}",
+    "int f{n}(int x, int y)\n{{\n    int r;\n    if (x) {{\n        r = y ? g(x) : g(x);\n        r = r + 1;\n    }} else {{\n        r = y ? g(x) : g(x);\n        r = r + 1;\n    }}\n    return r;\n}}",
+    "void f{n}(int *p, int c)\n{{\n    if (c) {{\n        *p = {c};\n        p[1] = g(c);\n    }} else {{\n        *p = {c};\n        p[1] = g(c);\n    }}\n}}",
+    "int f{n}(int x)\n{{\n    switch (x) {{\n    case 1:\n        x = g(x);\n        x = g(x);\n        break;\n    case 2:\n        x = g(x);\n        x = g(x);\n        break;\n    }}\n    return x;\n}}",
+]
+
+
+def gen_candidates(rng, kmin=2, kmax=5):
+    picks = [rng.randrange(len(CANDIDATES)) for _ in range(rng.randint(kmin, kmax))]
+    parts = ["int g(int);"]
+    for n, i in enumerate(picks):
+        parts.append(CANDIDATES[i].format(n=n, c=rng.choice([1, 2, 3, 5, 7])))
+    return "\n\n".join(parts) + "\n", picks
+
+
+def rw_asym(rng, toks):
+    """layout changes INSIDE ONE compound statement only: blank lines, comment lines, joined or split lines between
+    any two statements of one randomly chosen { ... } (the sibling branch / the rest of the file keeps its layout)"""
+    opens, stack, pairs = [], [], []
+    for i, t in enumerate(toks):
+        if t.s == "{":
+            stack.append(i)
+        elif t.s == "}" and stack:
+            pairs.append((stack.pop(), i))
+    pairs = [(a, b) for a, b in pairs if b - a > 3]
+    if not pairs:
+        return None
+    a, b = rng.choice(pairs)
+    gaps = []
+    changed = False
+    for i, t in enumerate(toks):
+        g = t.gap
+        prev = toks[i - 1] if i else None
+        if a < i <= b and prev is not None and prev.s in (";", "{", "}") and not t.directive and not prev.directive and rng.random() < 0.6:
+            ind = " " * rng.randint(0, 8)
+            g = rng.choice(["\n\n" + ind, "\n" + ind + "/* note */\n" + ind, "\n" + ind + "// note\n\n" + ind, " ", "\n\n\n\n\n\n" + ind,
+                            "\n" + ind + "/* a\n" + ind + "   b */\n" + ind])
+            changed = True
+        gaps.append(g)
+    if not changed:
+        return None
+    text, pos = render(toks, gaps)
+    locmap = {(t.line, t.col): p for t, p in zip(toks, pos)}
+    return text, locmap, {}
